@@ -102,13 +102,16 @@ class Report:
             else:
                 print("NOTE: known finding %s (%s) was not re-observed in this run" % (f["id"], self.pid))
         if self.violations:
-            seen = set()
+            classes = {}
             for v in self.violations:
+                classes.setdefault(tuple(v["tags"]), []).append(v)
+            shown = 0
+            for cls, vs in sorted(classes.items(), key=lambda kv: -len(kv[1])):
+                v = min(vs, key=lambda x: len(json.dumps(x["case"], default=str)))
                 key = hashlib.sha1(json.dumps(v, sort_keys=True, default=str).encode()).hexdigest()[:12]
-                if key in seen:
-                    continue
-                seen.add(key)
-                if len(seen) > 10:
+                shown += 1
+                if shown > 12:
+                    print("  ... and %d more classes of violation" % (len(classes) - 12))
                     break
                 path = os.path.join(REPLAY_DIR, "%s-%s.json" % (self.pid, key))
                 with open(path, "w") as fh:
@@ -116,8 +119,9 @@ class Report:
                               fh, indent=1, default=str)
                     fh.write("\n")
                 print("VIOLATION property=%s replay=%s" % (self.pid, path))
-                print("  " + str(v["what"])[:600])
-            print("%s: %d violation(s) in %.1fs" % (self.pid, len(self.violations), time.time() - self.t0))
+                print("  [%d case(s) of class %s]" % (len(vs), ",".join(cls)[:200]))
+                print("  " + str(v["what"])[:700])
+            print("%s: %d violation(s) in %d class(es), %.1fs" % (self.pid, len(self.violations), len(classes), time.time() - self.t0))
             return 1
         print("%s: held on everything explored (%s tier, %.1fs)" % (self.pid, self.tier, time.time() - self.t0))
         return 0
